@@ -19,7 +19,7 @@ import numpy as np
 import onnx
 from onnx import TensorProto, helper, numpy_helper
 
-FORMS = ("inferred", "bare", "bare+wrap")
+FORMS = ("inferred", "bare", "bare+wrap", "anon")
 
 NP2ONNX = {
     "float32": TensorProto.FLOAT, "float64": TensorProto.DOUBLE, "float16": TensorProto.FLOAT16,
@@ -241,6 +241,35 @@ class H:
         host.exact, host.rtol, host.atol, host.scale = self.exact, self.rtol, self.atol, self.scale
         host.declared_out = dict(self.declared_out)
         return host
+
+
+def anonymize(inf: onnx.ModelProto):
+    """The inferred model with the dim names onnx.shape_inference invented (`unk__k`) removed again: dims without value and
+    without name are what exporters emit; two of them are NOT known to be equal.  None if there is nothing to anonymize."""
+    m = onnx.ModelProto()
+    m.CopyFrom(inf)
+    n = 0
+
+    def walk(g):
+        nonlocal n
+        for vi in list(g.input) + list(g.output) + list(g.value_info):
+            tt = vi.type.tensor_type
+            if vi.type.HasField("tensor_type") and tt.HasField("shape"):
+                for d in tt.shape.dim:
+                    if d.HasField("dim_param") and d.dim_param.startswith("unk__"):
+                        d.ClearField("dim_param")
+                        n += 1
+                    elif not d.HasField("dim_param") and not d.HasField("dim_value"):
+                        n += 1
+        for nd in g.node:
+            for a in nd.attribute:
+                if a.HasField("g"):
+                    walk(a.g)
+                for sg in a.graphs:
+                    walk(sg)
+
+    walk(m.graph)
+    return m if n else None
 
 
 def render(model: onnx.ModelProto, feeds=None, declared=None):
